@@ -291,19 +291,29 @@ func c10Go(v string) (ans string, rw, viaRule *rules.DNSRewrite) {
 	if ans == "PANIC" || strings.ContainsAny(v, ",$\\") {
 		return ans, rw, nil
 	}
-	via := guardStr(func() string {
-		f, err := rules.NewNetworkRule("||h^$dnsrewrite="+v, 1)
-		if err != nil {
-			return "err"
-		}
-		viaRule = f.DNSRewrite
+	// the value on its own and between other modifiers (an error of one modifier must not be lost
+	// because a later modifier is fine): every form must give the answer of loadDNSRewrite
+	for _, tmpl := range []string{"||h^$dnsrewrite=%s", "||h^$dnsrewrite=%s,important", "||h^$important,dnsrewrite=%s",
+		"||h^$dnsrewrite=%s,dnstype=A", "||h^$dnstype=~A,dnsrewrite=%s,ctag=a"} {
+		text := fmt.Sprintf(tmpl, v)
+		var got *rules.DNSRewrite
+		via := guardStr(func() string {
+			f, err := rules.NewNetworkRule(text, 1)
+			if err != nil {
+				return "err"
+			}
+			got = f.DNSRewrite
 
-		return tok(wrewrite(f.DNSRewrite))
-	})
-	// (The option splitter used to drop UTF-8 continuation bytes -- D13, repaired in /repo by
-	// 2392f6b -- so the value loadDNSRewrite sees equals v for every v without ',' '$' '\\'.)
-	if via != ans {
-		return "NETRULE-MISMATCH:" + via + "/" + ans, rw, viaRule
+			return tok(wrewrite(f.DNSRewrite))
+		})
+		if viaRule == nil {
+			viaRule = got
+		}
+		// (The option splitter used to drop UTF-8 continuation bytes -- D13, repaired in /repo by
+		// 2392f6b -- so the value loadDNSRewrite sees equals v for every v without ',' '$' '\\'.)
+		if via != ans {
+			return "NETRULE-MISMATCH:" + text + ":" + via + "/" + ans, rw, viaRule
+		}
 	}
 
 	return ans, rw, viaRule
